@@ -9,7 +9,7 @@ META = dict(
     functions=['transceiver.Transceiver.clck_tick', 'transceiver.Transceiver.recv_data_msg', 'transceiver.Transceiver.tx_queue_append/tx_queue_clear', 'transceiver.Transceiver.power_event_handler',
                'data_if.DATAInterface.recv_tx_msg/recv_raw_data/match_hdr_ver', 'data_msg.TxMsg.parse_msg', 'fake_trx.Application.clck_handler', 'ctrl_if_trx.CTRLInterfaceTRX.parse_cmd (SETFORMAT)'],
     bounds=dict(quick='one step from an ARBITRARY queue of k <= 3 messages with symbolic frame numbers (0..2715647) and a symbolic running flag; step = clck_tick(fn) with symbolic fn | recv_data_msg of a symbolic valid datagram (symbolic FN, version 0/1 vs negotiated 0/1) | power on/off | SETFORMAT v; '
-                      'plus every 3-operation history from the empty queue with symbolic frame numbers; schedules: one arrival or power command racing one tick, all orders of their lock-protected sections and running-flag accesses (preemption bound 3), data symbolic',
+                      'plus every 3-operation history from the empty queue with symbolic frame numbers; two constructor-built transceivers (independent / parent+child): a burst accepted by one is invisible to the other, survives its power-off, is emitted once by its owner; schedules: one arrival or power command racing one tick, all orders of their lock-protected sections and running-flag accesses (preemption bound 3), data symbolic',
                 thorough='k <= 4; 4-operation histories'),
     stubs=['fake socket', 'logging (records "Stale TRXD message")', 'burst forwarder stub recording forward_msg(src, msg)', 'threads serialised by a baton: exactly one runs at a time; scheduler choices are symbolic booleans explored by forking'],
     outside=['preemption inside CPython bytecodes below lock granularity', 'queues longer than 4'],
@@ -34,6 +34,8 @@ def jobs(tier, seed):
         out.append(('power.k=%d' % k, 'h_power', dict(k=k)))
         if k: out.append(('power-parent-child.k=%d' % k, 'h_power_child', dict(k=k)))
     out.append(('setformat', 'h_setformat', {}))
+    for variant in ('tick-other', 'poweroff-other', 'child'):
+        out.append(('isolation.%s' % variant, 'h_isolation', dict(variant=variant)))
     for op in ('recv', 'off', 'on'):
         for k in (1, 2):
             out.append(('race.%s-vs-tick.k=%d' % (op, k), 'h_race', dict(op=op, k=k)))
@@ -213,6 +215,45 @@ def h_hist(ctx, seq):
                     trx.power_event_handler(op == 'on')
                 if op == 'off': pending = []
                 ctx.check('op%d.power:queue' % i, len(trx._tx_queue) == len(pending))
+
+
+def h_isolation(ctx, variant):
+    """two transceivers built by their constructors only (no state is planted): a burst accepted by one is invisible to the other,
+    survives the other's power-off and is emitted exactly once, by its own transceiver"""
+    T = env.load(ctx, *TK)
+    with env.symbolic(ctx):
+        net, log, rnd = env.std_env(ctx, T)
+        a = mk_trx(ctx, T, 'A', 5700)
+        if variant == 'child':
+            b = mk_trx(ctx, T, 'B', 5700, child_idx=1); a.child_trx_list.add_trx(b)
+        else:
+            b = mk_trx(ctx, T, 'B', 6700)
+        a.running = True; b.running = True
+        m = sym_tx(ctx, T, 0, 148, prefix='in.')
+        d = m.gen_msg()
+        a.data_if.sock.inject(d if ctx.mode == 'sym' else bytes(d))
+        with ctx.no_raise('recv:no-exception'):
+            a.recv_data_msg()
+        ctx.check('accepted-by-A', len(a._tx_queue) == 1, got=len(a._tx_queue))
+        ctx.check('invisible-to-B', len(b._tx_queue) == 0, got=len(b._tx_queue))
+        fwd = Fwd()
+        if variant == 'poweroff-other':
+            with ctx.no_raise('poweroff-B:no-exception'):
+                b.power_event_handler(False)
+            ctx.check('A-keeps-its-burst', len(a._tx_queue) == 1, got=len(a._tx_queue))
+        else:
+            with ctx.no_raise('tick-B:no-exception'):
+                b.clck_tick(fwd, m.fn)
+            ctx.check('B-emits-nothing', not fwd.calls, n=len(fwd.calls))
+        with ctx.no_raise('tick-A:no-exception'):
+            a.clck_tick(fwd, m.fn)
+        ctx.check('emitted-exactly-once', len(fwd.calls) == 1, n=len(fwd.calls))
+        if len(fwd.calls) == 1:
+            ctx.check('emitted-by-A', fwd.calls[0][0] is a)
+            ctx.check('emitted-frame', eq(fwd.calls[0][1].fn, m.fn))
+        fwd2 = Fwd()
+        a.clck_tick(fwd2, m.fn); b.clck_tick(fwd2, m.fn)
+        ctx.check('never-again', not fwd2.calls, n=len(fwd2.calls))
 
 
 def h_race(ctx, op, k):
